@@ -1452,7 +1452,9 @@ def fault_sites(doc):
     for ui, u in enumerate(doc['units']):
         out += [('units-duplicate', ['last', ui]), ('units-duplicate', ['first', ui])]
         if not u.get('base'):
-            out += [('units-dangling', ['edit', ui]), ('units-offset', ['edit', ui]), ('units-cycle', ['edit', ui])]
+            out += [('units-dangling', ['edit', ui]), ('units-cycle', ['edit', ui])]
+            if len(u['elems']) == 1 and u['elems'][0].get('exponent') in (None, '1', '1.0'):
+                out.append(('units-offset', ['edit', ui]))
     if len(names) >= 3:
         for ci in range(len(names)):
             out.append(('two-parents', [ci]))
@@ -1614,7 +1616,7 @@ def inject(doc, kind, site, rng):
                     c['maths'][mi].insert(ei + 1, dup)
             return d, {'maths:%s' % c['name']}
         return _inject_units(d, doc, kind, site, rng)
-    except (IndexError, KeyError, StopIteration):
+    except (IndexError, KeyError, StopIteration, DocError, TypeError):
         return None
 
 
@@ -1640,7 +1642,10 @@ def _inject_units(d, doc, kind, site, rng):
         if kind == 'units-dangling':
             rng.choice(u['elems'])['units'] = 'nowhere_unit'
         elif kind == 'units-offset':
-            rng.choice(u['elems'])['offset'] = rng.choice(['273.15', '32', '-1', '5'])
+            # the schema allows a non-zero offset only in a simple definition (one <unit>, exponent 1): rule 5.4.2.7
+            if len(u['elems']) != 1 or u['elems'][0].get('exponent') not in (None, '1', '1.0'):
+                return None
+            u['elems'][0]['offset'] = rng.choice(['273.15', '32', '-1', '5'])
         elif kind == 'units-cycle':
             u['elems'].append({'units': u['name'], 'exponent': '2'})
         else:
